@@ -146,3 +146,97 @@ def check_est(chk, facts):
         ok = bool(folds) and all((a1 == ["param:3"] and a2 == ["param:2"]) if rev else (a1 == ["param:2"] and a2 == ["param:3"]) for a1, a2 in folds)
         chk.ob(rule, "EST conditions fold", ok, "conditions are folded %s with and(%s): clauses keep their source order: %s" % ("from the right (rev)" if rev else "from the left", folds, ok),
                where=f.where(), fn=f.name, key="%s:est-conditions-fold" % rule)
+
+
+def check_links(chk, facts):
+    """Template links through protobuf: each slot's binding travels in the field named after that slot, both ways."""
+    rule = "C06.FIELDS"
+    if chk.secondary and not any(x.startswith("cedar_policy::proto::") for x in facts.fns.index):
+        return
+    f = get_fn(chk, facts, rule, PP + "From<&cedar_policy_core::ast::Policy> for " + M + "Policy>::from")
+    n = 0
+
+    def slot_label(c, t):
+        last = c.split("::")[-1]
+        if "SlotId" in c and last in ("principal", "resource"):
+            return ["SLOT:" + last]
+        if ("ast::Policy::" in c or "ast::policy::Policy::" in c) and last in ("id", "template", "is_static", "env"):
+            return ["ACC:" + last]
+        return None
+    if f is not None:
+        L = shape.Labels(f, None, None, call_labels=slot_label)
+        for b, s_ in f.stmts():
+            if s_[0] == "a" and s_[2][0] == "agg" and s_[2][1][0] == "adt" and s_[2][1][1] == M + "Policy":
+                got = {nm: L.operand_labels(o) for nm, o in zip(s_[2][1][3], s_[2][2])}
+                for fld, slot in (("principal_euid", "principal"), ("resource_euid", "resource")):
+                    labs = {x[5:] for x in got.get(fld, set()) if x.startswith("SLOT:")}
+                    n += 1
+                    chk.ob(rule, "encode link:%s" % fld, labs == {slot}, "models::Policy.%s carries the binding of slot %s (required ?%s)" % (fld, sorted(labs), slot), where=f.where(s_[3]), fn=f.name,
+                           key="%s:encode link:%s" % (rule, fld))
+                tl = {x[4:] for x in got.get("template_id", set()) if x.startswith("ACC:")}
+                n += 1
+                chk.ob(rule, "encode link:template_id", "template" in tl, "template_id is the id of the policy's template: %s" % sorted(tl), where=f.where(s_[3]), fn=f.name)
+    g = get_fn(chk, facts, rule, "cedar_policy::proto::policy::reify_template_link")
+    if g is not None:
+        def seed(p):
+            out = []
+            for e in p[1:]:
+                if isinstance(e, list) and e[0] == "f" and e[3] == M + "Policy" and e[2]:
+                    out.append("SRC:" + e[2])
+            return out
+        L = shape.Labels(g, None, seed, call_labels=slot_label)
+        pairs = []
+        for b, t in g.calls():
+            if callee(t).endswith("HashMap::<K, V, S, A>::insert") and len(t[2]) >= 3:
+                k = {x[5:] for x in L.operand_labels(t[2][1]) if x.startswith("SLOT:")}
+                v = {x[4:] for x in L.operand_labels(t[2][2]) if x.startswith("SRC:") and x.endswith("_euid")}
+                if k or v:
+                    pairs.append((sorted(k), sorted(v)))
+        want = [(["principal"], ["principal_euid"]), (["resource"], ["resource_euid"])]
+        n += 1
+        chk.ob(rule, "decode link:bindings", sorted(pairs) == want, "reify_template_link binds %s (required ?principal <- principal_euid, ?resource <- resource_euid)" % pairs, where=g.where(), fn=g.name,
+               key="%s:decode link:bindings" % rule)
+        # the link is created against the template named by template_id under the id link_id
+        lk = [(b, t) for b, t in g.calls() if callee(t).endswith("Template::link")]
+        ok = False
+        for b, t in lk:
+            l1 = {x[4:] for x in L.operand_labels(t[2][1]) if x.startswith("SRC:")}
+            l0 = {x[4:] for x in L.operand_labels(t[2][0]) if x.startswith("SRC:")}
+            ok = "link_id" in l1 and "template_id" in l0
+        n += 1
+        chk.ob(rule, "decode link:ids", ok, "Template::link(template named by template_id, id from link_id, ..): %s" % ok, where=g.where(), fn=g.name)
+    chk.floor(rule, "link fields through protobuf", n, 5)
+
+
+def check_est_set(chk, facts):
+    """EST policy set -> AST: every static policy is added, every template added as a template, every link linked with
+    (template_id, new_id, values) in their own positions."""
+    from lib import protocol, cfg
+    rule = "C06.FIELDS"
+    fname = "cedar_policy_core::est::policy_set::<impl std::convert::TryFrom<cedar_policy_core::est::policy_set::PolicySet> for cedar_policy_core::ast::policy_set::PolicySet>::try_from"
+    f = get_fn(chk, facts, rule, fname)
+    if f is None:
+        return
+    n = namesake_call(chk, rule, facts, fname, "cedar_policy_core::ast::policy_set::PolicySet::link", "cedar_policy_core::est::policy_set::TemplateLink", "EST link -> AST", skip=())
+    PS = "cedar_policy_core::est::policy_set::PolicySet"
+
+    def seed(p):
+        return ["SRC:" + e[2] for e in p[1:] if isinstance(e, list) and e[0] == "f" and e[3] == PS and e[2]]
+    L = shape.Labels(f, None, seed)
+    for sink, src in (("PolicySet::add", "static_policies"), ("PolicySet::add_template", "templates"), ("PolicySet::link", "template_links")):
+        sites = [(b, t) for b, t in f.calls() if callee(t).endswith(sink)]
+        ok = False
+        det = "no call"
+        if sites:
+            lp = protocol.loop_of(f, sites[0][0])
+            if lp:
+                head, some = lp
+                skip = head in cfg.reachable(f, some, cut_blocks={b for b, _ in sites})
+                hb = f.blocks[head]["t"]
+                from_src = ("SRC:" + src) in (L.operand_labels(hb[2][0]) if hb[0] == "call" and hb[2] else set())
+                errs_abort = all(protocol.honor_result(f, b)[0] for b, _ in sites)
+                ok = (not skip) and from_src and errs_abort
+                det = "every entry of `%s` reaches %s (no skipped iteration: %s; iterates that field: %s; failures abort: %s)" % (src, sink.split("::")[-1], not skip, from_src, errs_abort)
+        n += 1
+        chk.ob(rule, "EST set:" + src, ok, det, where=f.where(sites[0][1][1].get("l") if sites else None), fn=f.name, key="%s:EST set:%s" % (rule, src))
+    chk.floor(rule, "EST policy set components", n, 6)
